@@ -536,7 +536,47 @@ class C08(PropBase):
 
     def __init__(self):
         super().__init__()
-        self.hists = {}
+        self.dist = {"repositories": set(), "commits": set(), "selector_forms": {}, "tree_classes": {}, "via_settings": 0,
+                     "commits_with_symlink": set(), "git_err": 0, "git_ok": 0}
+
+    def tally(self, case, impl):
+        d = self.dist
+        k = hist_key(case["hist"])
+        ck = (k, case["commit"])
+        d["repositories"].add(k)
+        f = case["sel"]
+        form = f["how"]
+        if form == "ref":
+            n = f["name"]
+            form = ("tag-" + f["tag"] if f.get("tag") else "HEAD" if n == "HEAD" else "branch") + (
+                "~n" if "~" in n or "^" in n else "") + (" (refs/..)" if n.startswith("refs/") else "")
+        d["selector_forms"][form] = d["selector_forms"].get(form, 0) + 1
+        if case.get("via_settings"):
+            d["via_settings"] += 1
+        g = impl.get("git", {}) if isinstance(impl, dict) else {}
+        d["git_ok" if g.get("r") == "OK" else "git_err"] += 1
+        if ck not in d["commits"]:
+            d["commits"].add(ck)
+            state = replay_states(case["hist"])[case["commit"]]
+            hd, he = case["hist"]["dir"], case["hist"]["ext"]
+            cl = dict(near_miss_paths(hd, he) + selected_paths(hd, he))
+            for p, v in state.items():
+                c = cl.get(p)
+                if v["k"] == "link":
+                    c = "symlink"
+                    d["commits_with_symlink"].add(ck)
+                elif c and v["mode"] == "755" and c != "executable":
+                    c = c + "+x"
+                if c:
+                    d["tree_classes"][c] = d["tree_classes"].get(c, 0) + 1
+
+    def last_samples(self):
+        d = self.dist
+        dist = {"kind": "distribution", "repositories": len(d["repositories"]), "commits": len(d["commits"]),
+                "commits_with_symlink": len(d["commits_with_symlink"]), "selector_forms": d["selector_forms"],
+                "tree_classes (commits containing a file of the class)": d["tree_classes"],
+                "via_settings": d["via_settings"], "git_ok": d["git_ok"], "git_err": d["git_err"]}
+        return self._samples + [dist]
 
     # -- generation
     def gen(self, rng, tier, focus=None):
@@ -581,8 +621,7 @@ class C08(PropBase):
                     for f in chosen:
                         via = rng.random() < 0.3 or cls == "dotted-ext" and rng.random() < 0.7
                         out.append({
-                            "op": "git", "kind": "%s/%s%s" % (cls, f["how"] + (":" + f["tag"] if f.get("tag") else ""),
-                                                             "/mid" if stage == "mid" else ""),
+                            "op": "git", "kind": cls + ("@mid-snapshot" if stage == "mid" else ""),
                             "hist": hist, "commit": idx, "stage": stage, "sel": f, "dir": sd, "ext": se,
                             "via_settings": via, "repo_form": rng.choice(["worktree", "dotgit"]), "cfg": {},
                         })
@@ -704,6 +743,7 @@ class C08(PropBase):
         cid = info["ids"][case["commit"]]
         exp = self.expected(case)
         self.remember(case)
+        self.tally(case, impl)
         sel = resolve_selector(case["sel"], cid)
         if g["r"] == "ERR" and is_tag_ancestor_form(case) and "ancestor" in (g.get("msg") or ""):
             return {"sig": "K1:annotated-tag-ancestor", "what": "revision %r (annotated tag + ~1) is not resolved: %s" % (
@@ -776,6 +816,8 @@ class C08(PropBase):
         return len(exp["files"]) > 0 and others > 0
 
     def sample(self, case):
+        if "hist" not in case:
+            return case
         c = {k: v for k, v in case.items() if k not in ("hist",)}
         c["hist_key"] = hist_key(case["hist"])
         c["paths_at_commit"] = sorted(replay_states(case["hist"])[case["commit"]].keys())
